@@ -321,11 +321,22 @@ func (m *Muxer) retransmitTables(force bool) (int, error) {
 func (m *Muxer) WriteTables() (int, error) {
 	bytesWritten := 0
 
+	// Tables that can't be generated are not emitted: the continuity counter values and version numbers they consumed
+	// have to be given back, otherwise receivers see a discontinuity, or a version change without any change
+	patCC, pmtCC, patVersion, pmtVersion := m.patCC, m.pmtCC, m.patVersion, m.pmtVersion
+	pmUpdated, pmtUpdated := m.pmUpdated, m.pmtUpdated
+	rollback := func() {
+		m.patCC, m.pmtCC, m.patVersion, m.pmtVersion = patCC, pmtCC, patVersion, pmtVersion
+		m.pmUpdated, m.pmtUpdated = pmUpdated, pmtUpdated
+	}
+
 	if err := m.generatePAT(); err != nil {
+		rollback()
 		return bytesWritten, err
 	}
 
 	if err := m.generatePMT(); err != nil {
+		rollback()
 		return bytesWritten, err
 	}
 
